@@ -18,7 +18,8 @@ Literal, total, executable mirror of
   and the non-indenting `Writer`.
 
 External calls are parameters (`Ext`): `Timestamp::parse` ∘ `fmt_timestamp` (property C14 owns them).
-Tracks /repo at 7fbc5bc (integers: `parse_integer`, since 7ec6a52; text: CR written as `&#13;`, since 7fbc5bc).
+Tracks /repo at c575458 (integers: `parse_integer`, since 7ec6a52; text: CR written as `&#13;`, since 7fbc5bc;
+character data = all text pieces and CDATA sections of the element, since c575458).
 The lookahead state `peeked` / `next_slot` of `Deserializer` is the head of the remaining event list here:
 `peek_event` = look at the head, `consume_peeked` / `next_event` = drop it; `Empty` is expanded by `deEvents`.
 -/
@@ -35,6 +36,7 @@ inductive Ev where
   | start (name rest : Bytes)
   | stop (name : Bytes)
   | text (raw : Bytes)
+  | cdata (content : Bytes)   -- `DeEvent::CData` (since c575458): a CDATA section, content verbatim
   | bad
   deriving DecidableEq, Repr
 
@@ -207,9 +209,10 @@ def isAscii (t : Bytes) : Bool := t.all (·.toNat < 128)
 
 abbrev R (α : Type) := Except DeErr (α × List Ev)
 
-/-- the `DeEvent::Text(_) => continue` arm of the `expect_*` / `element` loops -/
+/-- the `DeEvent::Text(_) | DeEvent::CData(_) => continue` arm of the `expect_*` / `element` loops -/
 def skipText : List Ev → List Ev
   | .text _ :: r => skipText r
+  | .cdata _ :: r => skipText r
   | r => r
 
 /-- `Deserializer::expect_start` -/
@@ -219,6 +222,7 @@ def expectStart (name : Bytes) (evs : List Ev) : Except DeErr (List Ev) :=
   | .stop _ :: _ => .error .unexpectedEnd
   | .bad :: _ => .error .invalidXml
   | .text _ :: _ => .error .invalidXml -- unreachable: `skipText` never stops at a text
+  | .cdata _ :: _ => .error .invalidXml -- unreachable
   | [] => .error .unexpectedEof
 
 /-- `Deserializer::expect_end` -/
@@ -228,6 +232,7 @@ def expectEnd (name : Bytes) (evs : List Ev) : Except DeErr (List Ev) :=
   | .stop n :: r => if n = name then .ok r else .error .unexpectedTagName
   | .bad :: _ => .error .invalidXml
   | .text _ :: _ => .error .invalidXml -- unreachable
+  | .cdata _ :: _ => .error .invalidXml -- unreachable
   | [] => .error .unexpectedEof
 
 /-- `Deserializer::expect_eof` -/
@@ -237,16 +242,58 @@ def expectEof (evs : List Ev) : Except DeErr Unit :=
   | .stop _ :: _ => .error .unexpectedEnd
   | .bad :: _ => .error .invalidXml
   | .text _ :: _ => .error .invalidXml -- unreachable
+  | .cdata _ :: _ => .error .invalidXml -- unreachable
   | [] => .ok ()
 
-/-- `Deserializer::text`: the raw (still escaped) text at the cursor; at an `End` the empty text, `End` not consumed -/
-def textOf (evs : List Ev) : R Bytes :=
-  match evs with
-  | .start _ _ :: _ => .error .unexpectedStart
-  | .stop _ :: _ => .ok ([], evs)
-  | .text raw :: r => .ok (raw, r)
-  | .bad :: _ => .error .invalidXml
-  | [] => .error .unexpectedEof
+/-- `impl DeserializeContent for String`: `t.unescape()` = UTF-8 check, then `unescape` -/
+def decodeStr (raw : Bytes) : Except DeErr Bytes :=
+  if utf8Valid raw then
+    match unescape raw with
+    | some s => .ok s
+    | none => .error .invalidXml
+  else .error .invalidXml
+
+/-- `Deserializer::joined_text`: the joined buffer, with the first text piece (if still held in `single`) unescaped
+into it -/
+def joinedText (single joined : Option Bytes) : Except DeErr Bytes :=
+  match single with
+  | some x =>
+    match decodeStr x with
+    | .ok u => .ok (joined.getD [] ++ u)
+    | .error e => .error e
+  | none => .ok (joined.getD [])
+
+/-- the loop of `Deserializer::text` (since c575458): the character data of an element is all its text pieces and
+CDATA sections up to the end tag (comments and PIs are already skipped). A lone text piece stays as it is
+(`single`, still escaped); as soon as there is a second piece or a CDATA section everything is unescaped into
+`joined`, and what the scalar parser `f` gets is `escape(joined)`. `End` is not consumed. -/
+def textLoop : Option Bytes → Option Bytes → List Ev → R Bytes
+  | _, _, [] => .error .unexpectedEof
+  | _, _, .start _ _ :: _ => .error .unexpectedStart
+  | _, _, .bad :: _ => .error .invalidXml
+  | single, joined, .stop n :: r =>
+    match joined with
+    | some s => .ok (escape s, .stop n :: r)
+    | none =>
+      match single with
+      | some x => .ok (x, .stop n :: r)
+      | none => .ok ([], .stop n :: r)
+  | single, joined, .text x :: r =>
+    if single.isNone && joined.isNone then textLoop (some x) none r
+    else
+      match joinedText single joined with
+      | .error e => .error e
+      | .ok buf =>
+        match decodeStr x with
+        | .error e => .error e
+        | .ok u => textLoop none (some (buf ++ u)) r
+  | single, joined, .cdata c :: r =>
+    match joinedText single joined with
+    | .error e => .error e
+    | .ok buf => if utf8Valid c then textLoop none (some (buf ++ c)) r else .error .invalidContent
+
+/-- `Deserializer::text`: the (escaped) character data at the cursor, handed to the scalar parser -/
+def textOf (evs : List Ev) : R Bytes := textLoop none none evs
 
 /-- `Deserializer::for_each_element`, the callback `f d name` threading an accumulator. One iteration consumes at
 least the start event, so `fuel = number of events + 1` is never exhausted. -/
@@ -265,14 +312,6 @@ def forEach {α : Type} (f : Bytes → List Ev → α → R α) : Nat → List E
     | rest => .ok (acc, rest)      -- `End(_) | Eof => return Ok(())`, not consumed
 
 /-! ## scalar content -/
-
-/-- `impl DeserializeContent for String`: `t.unescape()` = UTF-8 check, then `unescape` -/
-def decodeStr (raw : Bytes) : Except DeErr Bytes :=
-  if utf8Valid raw then
-    match unescape raw with
-    | some s => .ok s
-    | none => .error .invalidXml
-  else .error .invalidXml
 
 def decodeScalarText (X : Ext) : Sch → Bytes → Except DeErr Val
   | .str, raw | .enm, raw => (decodeStr raw).map .str
@@ -514,6 +553,7 @@ def writeEv : Ev → Bytes
   | .start n rest => cLt :: n ++ rest ++ [cGt]
   | .stop n => cLt :: 47 :: n ++ [cGt]
   | .text raw => raw
+  | .cdata c => [60, 33, 91, 67, 68, 65, 84, 65, 91] ++ c ++ [93, 93, 62] -- never written by the serialiser
   | .bad => []
 
 def write (evs : List Ev) : Bytes := evs.flatMap writeEv
@@ -659,13 +699,14 @@ def stripBom (b : Bytes) : Bytes :=
 
 def tokenize (doc : Bytes) : List QEv := tokLoop (doc.length + 1) (stripBom doc) []
 
-/-- `Deserializer::read_event`: skip what is neither element nor text, expand `Empty` through `next_slot` -/
+/-- `Deserializer::read_event`: skip comments, PIs, declarations; expand `Empty` through `next_slot` -/
 def deEvents : List QEv → List Ev
   | [] => []
   | .start n r :: t => .start n r :: deEvents t
   | .stop n :: t => .stop n :: deEvents t
   | .empty n r :: t => .start n r :: .stop n :: deEvents t
   | .text raw :: t => .text raw :: deEvents t
+  | .cdata c :: t => .cdata c :: deEvents t
   | .err :: _ => [.bad]
   | _ :: t => deEvents t
 
